@@ -18,7 +18,8 @@ def own(t): return ('own', t)
 def mir(t): return ('mir', t)
 def vecr(t): return ('vecr', t)
 STR = ('str',)
-CDC = ('cdc',)   # CodecRegion<DictionaryCodec, OwnedRegion<u8>>
+CDC = ('cdc',)
+def huf(t): return ('huf', t)   # HuffmanContainer<t>   # CodecRegion<DictionaryCodec, OwnedRegion<u8>>
 def strof(x): return ('strof', x)
 def sl(x, o='vec'): return ('sl', x, o)
 def opt(x): return ('opt', x)
@@ -77,6 +78,10 @@ ENTRIES = [
     ('sl_strof_cdc', sl(strof(CDC))),
     ('cols_cdc', cols(CDC, 'iopt')),
     ('col_cdc', col(CDC)),
+    ('huf_u8', huf('u8')),
+    ('huf_u16', huf('u16')),
+    ('sl_huf_u8', sl(huf('u8'))),
+    ('tup2_huf_str', tup2(huf('u8'), STR)),
 ]
 
 # FlatStack<R, S> entries: name -> (region expression, index container)
@@ -103,7 +108,7 @@ def by_name(): return dict(ENTRIES)
 def idx_kind(e):
     """shape of Region::Index: 'pair', 'usize', ('val', T), ('opt', k), ('res', a, b), ('tup', [..])"""
     k = e[0]
-    if k in ('own', 'sl', 'cdc'): return 'pair'
+    if k in ('own', 'sl', 'cdc', 'huf'): return 'pair'
     if k == 'mir': return ('val', e[1])
     if k == 'vecr': return 'usize'
     if k == 'str': return 'pair'
@@ -119,6 +124,7 @@ def shape(e):
     k = e[0]
     if k == 'own': return ('list', ('n', e[1]))
     if k == 'cdc': return ('list', ('n', 'u8'))
+    if k == 'huf': return ('list', ('n', e[1]))
     if k in ('mir', 'vecr'): return ('n', e[1])
     if k in ('str', 'strof'): return ('str',)
     if k in ('sl', 'cols'): return ('list', shape(e[1]))
@@ -132,9 +138,9 @@ def contains(e, kind):
     return e[0] == kind or any(isinstance(x, tuple) and contains(x, kind) for x in e[1:])
 
 def caps(e):
-    cd = contains(e, 'cdc')
-    c = {'clone': not cd, 'serde': not cd, 'heap': True, 'reserve_regions': True,
-         'reserve_items': not contains(e, 'col') and not contains(e, 'cols') and not cd, 'pushitem': True}
+    cd = contains(e, 'cdc'); hf = contains(e, 'huf')
+    c = {'clone': not cd, 'serde': not cd and not hf, 'heap': not hf, 'reserve_regions': not hf,
+         'reserve_items': not contains(e, 'col') and not contains(e, 'cols') and not cd and not hf, 'pushitem': True}
     return c
 
 def is_known_bad(e):
@@ -155,6 +161,7 @@ def rust_type(e):
     k = e[0]
     if k == 'own': return f'OwnedRegion<{rust_elem(e[1])}>'
     if k == 'cdc': return 'CodecRegion<DictionaryCodec>'
+    if k == 'huf': return f'HuffmanContainer<{rust_elem(e[1])}>'
     if k == 'mir': return f'MirrorRegion<{rust_elem(e[1])}>'
     if k == 'vecr': return f'Vec<{rust_elem(e[1])}>'
     if k == 'str': return 'StringRegion'
@@ -173,6 +180,7 @@ def item_kind(e):
     """kind of Region::ReadItem, for the PartialEq bound of CollapseSequence"""
     k = e[0]
     if k in ('own', 'cdc'): return 'slice'
+    if k == 'huf': return 'wrapped'
     if k in ('str', 'strof'): return 'str'
     if k == 'mir': return 'val'
     if k == 'vecr': return 'ref'
@@ -184,6 +192,7 @@ def ref_ok(e):
     k = e[0]
     if k in ('own', 'str', 'mir', 'vecr'): return True
     if k == 'cdc': return False
+    if k == 'huf': return True
     if k == 'strof': return True
     if k in ('sl', 'cols', 'opt', 'con'): return ref_ok(e[1])
     if k in ('res', 'tup2'): return ref_ok(e[1]) and ref_ok(e[2])
@@ -194,7 +203,7 @@ def cmp_ok(e):
     """is the read item Ord (slices of comparable things, strings, integers)?"""
     k = e[0]
     if k == 'own': return e[1] not in ('f64',)
-    if k == 'cdc': return True
+    if k in ('cdc', 'huf'): return True
     if k == 'mir': return e[1] not in ('f64',)
     if k == 'vecr': return e[1] not in ('f64',)
     if k in ('str', 'strof'): return True
@@ -217,6 +226,9 @@ def elem_views(e):
                 ('iter', lambda v: f'PushIter({P(v)}.iter().copied())', True)]
     if k == 'cdc':
         return [('slice', lambda v: f'{P(v)}.as_slice()', True)]
+    if k == 'huf':
+        return [('ref', lambda v: v, True), ('slice', lambda v: f'{P(v)}.as_slice()', True),
+                ('owned', lambda v: f'{P(v)}.clone()', True)]
     if k in ('mir', 'vecr'):
         return [('ref', lambda v: v, True), ('val', lambda v: f'*{P(v)}', True), ('refref', lambda v: f'&{P(v)}', False)]
     if k in ('str', 'strof'):
@@ -294,6 +306,7 @@ def gen_rust():
            'use crate::run::*;', 'use crate::wire::*;',
            'use flatcontainer::impls::deduplicate::{CollapseSequence, ConsecutiveIndexPairs};',
            'use flatcontainer::impls::codec::{CodecRegion, DictionaryCodec};',
+           'use flatcontainer::impls::huffman_container::HuffmanContainer;',
            'use flatcontainer::impls::index::{IndexList, IndexOptimized};',
            'use flatcontainer::impls::tuple::*;', 'use flatcontainer::*;', '']
     seen = {}
@@ -404,6 +417,7 @@ def coq_term(e, ctr=None):
     k = e[0]
     if k == 'own': return f'(m_owned {coq_elem(e[1])})'
     if k == 'cdc': return 'm_codec'
+    if k == 'huf': return f'(m_huffman {ELEM_BITS[e[1]]})'
     if k == 'mir': return f'(m_mirror {coq_elem(e[1])})'
     if k == 'vecr': return f'(m_vec {coq_elem(e[1])})'
     if k == 'str': return '(m_string str_wf (m_owned (e_word 8)))'
@@ -434,7 +448,7 @@ def coq_term(e, ctr=None):
 def gen_coq():
     out = ['(* GENERATED by tools/catalogue.py -- do not edit *)',
            'From FC Require Import Base.Res Base.Utf8 Index.IC Index.Stride Region.Region Region.Owned Region.Simple',
-           '  Region.Slice Region.Collapse Region.Consec Region.Columns Codec.Dictionary Region.Items Model.Wire Model.Pairs Model.FSMachine.',
+           '  Region.Slice Region.Collapse Region.Consec Region.Columns Codec.Dictionary Huffman.Huffman Region.Items Model.Wire Model.Pairs Model.FSMachine.',
            'Set Implicit Arguments.', '',
            'Definition entry (chk : bool) (szs : list N) (n : N) : option MRegion :=',
            '  match n with']
